@@ -79,7 +79,7 @@ CHECKS = {
    tech='exhaustive fault x site enumeration against the real entry point'),
 
  'C14': dict(cat='model_checking', ref='4/C14',
-   text='Explicit-state breadth-first search over sequences of MCNP-insignificant rewrites (upper-casing, blanks and tabs, leading blanks, continuation by 5 blanks / tab / trailing ampersand, $ and c comments also inside continued cards, message block, number respellings including the Fortran forms, data-card shorthand versus expansion) applied one site at a time to four base decks covering every card type; states are deck texts de-duplicated on identity; in every state the parsed output (surfaces, volumes, compositions numerically, GEOMCOMP, boundary conditions) must equal the base deck's.',
+   text='Explicit-state breadth-first search over sequences of MCNP-insignificant rewrites (upper-casing, blanks and tabs, leading blanks, continuation by 5 blanks / tab / trailing ampersand, $ and c comments also inside continued cards, message block, number respellings including the Fortran forms, data-card shorthand versus expansion) applied one site at a time to four base decks covering every card type; states are deck texts de-duplicated on identity; in every state the parsed output (surfaces, volumes, compositions numerically, GEOMCOMP, boundary conditions) must equal that of the base deck.',
    note='Trusted: the rewrite menu is MCNP-equivalent (manual). Sites are capped at the first, middle and last token boundary of a card; depth 2 in the quick tier, depth 3 (time-capped, the completed depth is reported) in the thorough tier. CRLF line ends are not in the property and are not demanded.',
    tech='explicit-state BFS over rewrite sequences with state de-duplication; differential comparison with the base deck'),
 }
